@@ -127,7 +127,7 @@ from functools import wraps
 
 import jax.extend as jex
 import jax.tree_util as jtu
-from jax.extend.core import Jaxpr
+from jax.extend.core import ClosedJaxpr, Jaxpr
 from jax._src.util import safe_map, split_list
 from jax.lax import scan_p, scan
 
@@ -140,6 +140,7 @@ from genjax.pjax import (
     stage,
     TerminalStyle,
     initial_style_bind,
+    _sub_jaxprs,
 )
 
 # Type aliases for convenience
@@ -187,6 +188,17 @@ def _nested_dict_get(d, path):
             current[namespace] = {}
         current = current[namespace]
     return current
+
+
+def _tags_state(jaxpr: Jaxpr) -> bool:
+    """Whether `jaxpr`, or a jaxpr nested in one of its equations, tags a value or enters a namespace."""
+    for eqn in jaxpr.eqns:
+        primitive, _ = PPPrimitive.unwrap(eqn.primitive)
+        if primitive in (state_p, namespace_push_p, namespace_pop_p):
+            return True
+        if any(_tags_state(sub) for sub in _sub_jaxprs(eqn.params)):
+            return True
+    return False
 
 
 @dataclass
@@ -321,6 +333,23 @@ class State:
                 outvals = jtu.tree_leaves(
                     (flat_carry_out, scanned_out),
                 )
+
+            elif any(_tags_state(sub) for sub in _sub_jaxprs(eqn.params)):
+                # Binding the equation as it is would silently drop what its body saves.
+                callee = eqn.params.get("jaxpr", eqn.params.get("call_jaxpr"))
+                if eqn.primitive.name in ("pjit", "jit", "closed_call") and isinstance(
+                    callee, ClosedJaxpr
+                ):
+                    # A jitted callee: interpret its body so the saved values are collected
+                    outvals = self.eval_jaxpr_state(
+                        callee.jaxpr, callee.consts, invals
+                    )
+                else:
+                    raise NotImplementedError(
+                        f"`state` cannot collect values saved inside `{eqn.primitive.name}`: "
+                        "only scan bodies and jitted callees are interpreted. "
+                        "Move the save(...) outside of it."
+                    )
 
             else:
                 # For all other primitives, use normal JAX evaluation
